@@ -456,3 +456,64 @@ func (w *iterWorld) Exec(p *Plan, st *RunStats) *Violation {
 }
 
 func init() { _ = fmt.Sprint }
+
+// walkBothWays walks a fresh iterator of the subject forwards over all positions and, where the iterator is
+// reversible, backwards from the end, and compares both with the snapshot (Values()/Keys()). It returns a
+// description of the first disagreement, or "". Used on containers that were produced by another operation
+// (a load, a restart): they must iterate like any other.
+func walkBothWays(s Subject) string {
+	is, ok := s.(IterSubject)
+	if !ok {
+		return ""
+	}
+	snap := is.IterSnapshot()
+	if snap == nil {
+		return ""
+	}
+	c := snap.New()
+	if c == nil {
+		return ""
+	}
+	n := snap.Len()
+	if n > 1200 {
+		return "" // (the linked stack's and queue's iterators read by index: a full walk is quadratic)
+	}
+	i := 0
+	for {
+		ret, _, _ := c.Move("Next", 0, 0)
+		if !ret {
+			break
+		}
+		if i >= n {
+			return fmt.Sprintf("the iterator yields more than the %d elements of Values()/Keys()", n)
+		}
+		if got, want := c.Pos(), snap.At(i); got != want {
+			return fmt.Sprintf("forward iteration: element %d is %s, Values()/Keys() say %s", i, got, want)
+		}
+		i++
+	}
+	if i != n {
+		return fmt.Sprintf("forward iteration stops after %d of %d elements", i, n)
+	}
+	if _, _, supported := c.Move("End", 0, 0); !supported {
+		return ""
+	}
+	i = n
+	for {
+		ret, _, _ := c.Move("Prev", 0, 0)
+		if !ret {
+			break
+		}
+		i--
+		if i < 0 {
+			return fmt.Sprintf("backward iteration yields more than the %d elements of Values()/Keys()", n)
+		}
+		if got, want := c.Pos(), snap.At(i); got != want {
+			return fmt.Sprintf("backward iteration: element %d is %s, Values()/Keys() say %s", i, got, want)
+		}
+	}
+	if i != 0 {
+		return fmt.Sprintf("backward iteration stops with %d of %d elements to go", i, n)
+	}
+	return ""
+}
